@@ -765,6 +765,9 @@ def run(ctx):
                 ('perpixel', 'int64', 'float64'), ('1d', 'float64', 'int64')]:
             if not any(k[0].split('/')[0] == cls[0] and k[1:] == cls[1:] and v for k, v in by_class.items()):
                 raise MachineryError(f'vacuous run: no complete replay of class {cls}')
+    # growth module (DESIGN §8): time-distance diagram + beamline component accessors; findings are not C01 violations
+    from .. import lib_growth_diagram
+    ctx.run_growth(lib_growth_diagram.run, 'lib_growth_diagram')
 
 
 META = {
